@@ -161,6 +161,24 @@ def proj_field(base, idx):
             return base[2][int(idx)]
         if base[0] == 'v' and isinstance(base[1], tuple) and base[1][0] == 'aggr' and idx.isdigit() and int(idx) < len(base[1][2]):
             return base[1][2][int(idx)]
+        if base[0] == 'v' and isinstance(base[1], tuple) and base[1] and base[1][0] == 'join':
+            # downcast of a join: aggregates of another variant cannot be the value here
+            var = str(base[2]).split('#')[0]
+            outs = []
+            for a in base[1][1]:
+                if isinstance(a, tuple) and a and a[0] == 'aggr' and a[1].startswith('adt:'):
+                    if a[1].endswith('::' + var) and idx.isdigit() and int(idx) < len(a[2]):
+                        outs.append(a[2][int(idx)])
+                    continue
+                outs.append(('f', ('v', a, base[2]), idx))
+            uniq = []
+            for o in outs:
+                if o not in uniq:
+                    uniq.append(o)
+            if len(uniq) == 1:
+                return uniq[0]
+            if uniq:
+                return ('join', tuple(uniq))
     return ('f', base, idx)
 
 
@@ -292,25 +310,27 @@ class CFG:
         return [(v, tg) for v, tg in t['targets']] + [('else', t['otherwise'])]
 
     def switch_on(self, local, start):
-        """follow gotos from `start` to a switch whose operand is `local` (possibly via a copy)"""
+        """follow gotos from `start` to a switch whose operand is `local` (possibly via copies / moves / one negation)"""
         seen = set()
         x = start
+        alias = {local: False}    # local -> negated?
         while x not in seen and x >= 0:
             seen.add(x)
             bb = self.blocks[x]
             t = bb['term']
+            for s in bb['stmts']:
+                if s['k'] == 'assign' and not s['dst']['p']:
+                    rv = s['rv']
+                    src = rv['ops'][0].get('pl') if rv['k'] in ('use', 'unop') and rv.get('ops') else None
+                    if src is not None and not src['p'] and src['l'] in alias and s['dst']['l'] not in alias:
+                        if rv['k'] == 'use':
+                            alias[s['dst']['l']] = alias[src['l']]
+                        elif rv.get('op') == 'Not':
+                            alias[s['dst']['l']] = not alias[src['l']]
             if t['k'] == 'switch' and t['op']['k'] in ('copy', 'move') and not t['op']['pl']['p']:
                 l = t['op']['pl']['l']
-                if l == local:
-                    return x, t, False
-                # negation / copy inside the block
-                for s in bb['stmts']:
-                    if s['k'] == 'assign' and s['dst']['l'] == l and not s['dst']['p']:
-                        rv = s['rv']
-                        if rv['k'] == 'unop' and rv['op'] == 'Not' and rv['ops'][0].get('pl', {}).get('l') == local:
-                            return x, t, True
-                        if rv['k'] == 'use' and rv['ops'][0].get('pl', {}).get('l') == local and not rv['ops'][0]['pl']['p']:
-                            return x, t, False
+                if l in alias:
+                    return x, t, alias[l]
             if t['k'] == 'goto':
                 x = t['target']
             elif t['k'] == 'drop':
@@ -441,6 +461,30 @@ class Prov:
             r = uniq[0] if len(uniq) == 1 else ('join', tuple(uniq))
         self.memo[l] = r
         return r
+
+    def def_terms(self, l):
+        """[(term, block)] one per definition of local l (the join that of_local builds, kept apart)"""
+        out = []
+        for kind, d, bi in self.defs.get(l, []):
+            if kind == 'rv':
+                k = d['k']
+                if k in ('use', 'cast'):
+                    out.append((self.of_operand(d['ops'][0], 1), bi))
+                elif k == 'ref':
+                    out.append((self.of_place(d['pl'], 1), bi))
+                elif k == 'aggr':
+                    out.append((('aggr', d['ak'], tuple(self.of_operand(o, 1) for o in d['ops'])), bi))
+                elif k == 'binop':
+                    out.append((('binop', d['op'], tuple(self.of_operand(o, 1) for o in d['ops'])), bi))
+                elif k == 'unop':
+                    out.append((('unop', d['op'], self.of_operand(d['ops'][0], 1)), bi))
+                elif k == 'discr':
+                    out.append((('discr', self.of_place(d['pl'], 1)), bi))
+                else:
+                    out.append(((k,), bi))
+            else:
+                out.append((self.of_call(d, bi, 1), bi))
+        return out
 
     def of_call(self, t, bi, depth):
         callee = t['callee']
@@ -668,4 +712,7 @@ def closure_result(F, clo, args, depth=0):
             r = closure_result(F, inner, list(at[2]), depth + 1)
             if r is not None:
                 return r
+        if isinstance(inner, tuple) and inner and inner[0] == 'fn' and isinstance(at, tuple) and at[0] == 'aggr':
+            # a function item passed where a closure is expected (`collect(Node::is_root)`): calling it is calling the function
+            return ('call', inner[1], tuple(at[2]), d[3] if len(d) > 3 else None)
     return rt
